@@ -45,7 +45,8 @@ def gen_trace(seed, n_calls=45):
     gross = {}
     with ob.installed():
         rig = BrokerRig(t0, quotes, fee, ob, printing=(seed % 4 == 3), ctor_funds=(seed % 3 == 1),
-                        ccy=["USD", "GBP", "USD", "EUR", "USD"][seed % 5])       # a quarter of the traces with event printing ON
+                        ccy=["USD", "GBP", "USD", "EUR", "USD"][seed % 5],
+                        seconds=[0.0, 59.5, 0.0, 0.25][seed % 4])       # a quarter of the traces with event printing ON
         now = t0
         created = []
 
@@ -70,6 +71,8 @@ def gen_trace(seed, n_calls=45):
                 p = rng.choice(created) if created and rng.random() < 0.9 else anyp
                 a = rng.choice(ASSETS)
                 q = rng.choice([-1, 1]) * rng.randint(1, 20)
+                if rng.random() < 0.05:
+                    q = 0                                  # an order for nothing: fills, books no position, costs nothing
                 g = gross.get((p, a), 0)
                 if g + abs(q) > MAX_GROSS:
                     continue
@@ -127,7 +130,7 @@ def gen_trace(seed, n_calls=45):
                     do(dict(op="pf_mark", pid=p, asset=rng.choice(ASSETS), t=t, px=rng.choice([-1000, -1, 12345, 40001])))
                 else:
                     a = rng.choice(ASSETS)
-                    q = rng.choice([-3, -1, 1, 2])
+                    q = rng.choice([-3, -1, 1, 2, -3, -1, 1, 2, 0])
                     px = rng.randint(500, 50000)
                     held = pr["hold"][p].get(a, {}).get("qty", 0)
                     if held and rng.random() < 0.4:
@@ -168,12 +171,12 @@ def gen_big_trace(seed):
     return tr
 
 
-def record_calls(ident, t0, quotes, fee, calls, printing=False, ctor_funds=False):
+def record_calls(ident, t0, quotes, fee, calls, printing=False, ctor_funds=False, seconds=0.0):
     """Drive the real classes with a given call sequence and record the trace (used by --replay)."""
     ob = Observer()
     evs = []
     with ob.installed():
-        rig = BrokerRig(t0, quotes, fee, ob, printing=printing, ctor_funds=ctor_funds)
+        rig = BrokerRig(t0, quotes, fee, ob, printing=printing, ctor_funds=ctor_funds, seconds=seconds)
         for c in calls:
             evs.append(rig.apply(dict(c)))
     return dict(id=ident, t0=t0, quote=quotes, fee=fee,
